@@ -2,7 +2,7 @@
    Statements only; proofs in Algebra/ and Proofs/RegressionP.v. *)
 From Coq Require Import ZArith List Bool QArith Qcanon Permutation String.
 From TE Require Import Base.Val Base.Nd Base.Xq Algebra.Metric Algebra.MergeTree Algebra.Cache Algebra.Pool
-  Models.Aggregation Models.Aggregation2 Models.Regression Models.Stat Proofs.RegressionP Proofs.CovP Proofs.RegAlgP Proofs.AdoptP.
+  Models.Aggregation Models.Aggregation2 Models.Regression Models.Stat Proofs.RegressionP Proofs.CovP Proofs.RegAlgP Proofs.AdoptP Models.Fad Proofs.FadP.
 Import ListNotations.
 Open Scope list_scope.
 Open Scope Qc_scope.
@@ -106,6 +106,14 @@ Theorem wasserstein_merge_tree_eq_single : forall (c : unit) (t : mtree w_metric
   cmp w_metric c (run w_metric c t) = cmp w_metric c (run w_metric c (Shard _ (stream _ t))).
 Proof. exact (merge_tree_eq_single w_metric wasserstein_alg). Qed.
 
+(* FrechetAudioDistance: additive partial sums (AddSpec): any sharding, any merge order *)
+Theorem fad_any_sharding : forall (d : nat) (t t' : mtree fad_metric),
+  Forall (fun b => valid fad_metric d b = true) (stream _ t) ->
+  Forall (fun b => valid fad_metric d b = true) (stream _ t') ->
+  Permutation (stream _ t) (stream _ t') ->
+  cmp fad_metric d (run fad_metric d t) = cmp fad_metric d (run fad_metric d t').
+Proof. intros d. exact (merge_tree_any_sharding fad_metric fad_alg d fad_alg_comm). Qed.
+
 Print Assumptions max_any_sharding.
 Print Assumptions min_any_sharding.
 Print Assumptions cat_merge_tree_eq_single.
@@ -120,3 +128,4 @@ Print Assumptions ne_merge_tree_eq_single.
 Print Assumptions perplexity_merge_tree_eq_single.
 Print Assumptions auc_merge_tree_eq_single.
 Print Assumptions wasserstein_merge_tree_eq_single.
+Print Assumptions fad_any_sharding.
